@@ -23,6 +23,7 @@ mod fam;
 mod fam_c33;
 mod fam_c32;
 mod fam_c19;
+mod fam_c35;
 
 pub fn unescape(s: &str) -> String {
     let mut out = String::with_capacity(s.len());
